@@ -1,14 +1,14 @@
 """C19, second wave — swap_glyph_names against the abstract swap (conjugation by the transposition of two glyph names).
 
-Deductive (real AST of Lib/ufo2ft/instantiator.py:835-916):
+Deductive (real AST of Lib/ufo2ft/instantiator.py:835-916), all five steps:
   * InstantiatorError iff one of the two names is missing (and then nothing is touched)
   * outline contours, width and anchors of the two glyphs are exchanged; every other glyph keeps its own; glyph objects, names, key set stay
+  * components: glyph n ends up with the component list glyph sigma(n) had (same length, order, transformations), EVERY base name conjugated,
+    for every glyph of the font (step 1 + step 3; nested loop over component OBJECTS with a separation precondition)
   * kerning: the new table is the old one with both sides of every key conjugated (same values, no key lost, none invented)
   * groups: same group names in the same order, every member list mapped element-wise (order and multiplicity kept)
-Bounded (vcheck/hooks/c19.py): the re-mapping of component base names in step 3 (nested loop over component OBJECTS; here the loop is run
-with the trivial invariant) and everything that is library behaviour of the point-pen protocol beyond the model below.
-With the lemmas `C19.lemma.involution.*` (contracts/c19.py) this makes "swapping twice restores" a consequence for outlines / width / anchors,
-kerning and groups.
+Trusted: the point-pen protocol of ufoLib2 / defcon glyphs as far as the function uses it (models below).
+With the lemmas `C19.lemma.involution.*` (contracts/c19.py) "swapping twice restores" follows for all of it.
 """
 import z3
 
@@ -34,8 +34,11 @@ def _g_get_point_pen(ex, st, self, args, kwargs, node):
 
 def _g_draw_points(ex, st, self, args, kwargs, node):
     """glyph.drawPoints(pen) with pen = other.getPointPen(): the contours of `glyph` are appended to `other` (same contours, same order);
-    for every component of `glyph` a NEW component object is appended to `other` (the component lists are only known by that: the
-    re-mapping of component bases is not claimed deductively); `glyph` itself is only read."""
+    for every component of `glyph`, in order, a NEW component object with the same baseGlyph and transformation is appended to `other`
+    (GlyphPointPen.addComponent builds a Component); `glyph` itself is only read.
+    Specification-only: every component object knows the glyph and the position it sits at (`owner`, `idx`)."""
+    from pyvc.symex import BIRTH
+
     (pen,) = args
     if not (isinstance(pen.ty, T.Ref) and pen.ty.cls == "SwPen"):
         raise Unsupported("drawPoints with a pen that is not glyph.getPointPen()", node)
@@ -43,8 +46,25 @@ def _g_draw_points(ex, st, self, args, kwargs, node):
     mine = ex.read_field(st, self, "contours")
     theirs = ex.read_field(st, tgt, "contours")
     ex.write_field(st, tgt, "contours", Val(mine.ty, z3.Concat(lift(theirs), lift(mine))), node)
-    ex.write_field(st, tgt, "components", Val(List(Ref("SwComponent")), fresh(List(Ref("SwComponent")), "drawn")), node)
-    ex.advance_clock(st)
+    src = lift(ex.read_field(st, self, "components"))
+    old = lift(ex.read_field(st, tgt, "components"))
+    CT = List(Ref("SwComponent"))
+    new = fresh(CT, "drawn")
+    before, after = ex.advance_clock(st)
+    k, l = z3.Int(fresh_name("dk")), z3.Int(fresh_name("dl"))
+    inr = z3.And(k >= 0, k < z3.Length(src))
+    base = ex.field_array(st, "SwComponent", "baseGlyph")
+    xf = ex.field_array(st, "SwComponent", "transformation")
+    owner = ex.field_array(st, "SwComponent", "owner")
+    idx = ex.field_array(st, "SwComponent", "idx")
+    st.assume(z3.Length(new) == z3.Length(src))
+    # new objects (their cells are described, not stored: the heap arrays of the objects that existed stay the same terms)
+    st.assume(z3.ForAll([k], z3.Implies(inr, z3.And(
+        BIRTH(new[k]) >= before, BIRTH(new[k]) < after,
+        z3.Select(base, new[k]) == z3.Select(base, src[k]), z3.Select(xf, new[k]) == z3.Select(xf, src[k]),
+        z3.Select(owner, new[k]) == lift(tgt), z3.Select(idx, new[k]) == z3.Length(old) + k))))
+    st.assume(z3.ForAll([k, l], z3.Implies(z3.And(k >= 0, k < l, l < z3.Length(src)), new[k] != new[l])))
+    ex.write_field(st, tgt, "components", Val(CT, z3.Concat(old, new)), node)
     return Val.const(None)
 
 
@@ -80,12 +100,26 @@ cls(
     "SwGlyph",
     fields={"name": STR, "width": REAL, "contours": List(CONTOUR), "anchors": List(ANCHOR), "components": List(Ref("SwComponent"))},
     methods={"getPointPen": _g_get_point_pen, "drawPoints": _g_draw_points, "clearContours": _g_clear("contours", List(CONTOUR)), "clearComponents": _g_clear("components", List(Ref("SwComponent")))},
-    views={"contours": _contours_view, "anchors": lambda g: [(a.get("name"), a["x"], a["y"]) if isinstance(a, dict) else (a.name, a.x, a.y) for a in g.anchors], "width": lambda g: g.width},
+    views={"components": lambda g: [_pxc(c) for c in g.components], "contours": _contours_view, "anchors": lambda g: [(a.get("name"), a["x"], a["y"]) if isinstance(a, dict) else (a.name, a.x, a.y) for a in g.anchors], "width": lambda g: g.width},
     notes="ufoLib2 / defcon glyph: name, width, contours (abstract values, in order), anchors (abstract values, in order), component OBJECTS; "
     "getPointPen / drawPoints / clearContours / clearComponents (assumed API)",
 )
 cls("SwPen", fields={"glyph": Ref("SwGlyph")}, notes="the point pen returned by glyph.getPointPen(): draws into that glyph")
-cls("SwComponent", fields={"baseGlyph": STR}, notes="component object: baseGlyph (assignable)")
+XFORM = Opaque("Transformation")
+
+
+_RT_OWNER: dict = {}  # filled by the harness for the font of the current case (owner / idx are specification-only)
+
+
+def _rt_owner(font):
+    """run-time: component object -> (glyph, position) for all components of the font"""
+    return {id(c): (g, j) for g in font for j, c in enumerate(g.components)}
+
+
+cls("SwComponent", fields={"baseGlyph": STR, "transformation": XFORM, "owner": Ref("SwGlyph"), "idx": INT},
+    views={"transformation": lambda c: tuple(c.transformation), "owner": lambda c: _RT_OWNER.get(id(c), (None, -1))[0], "idx": lambda c: _RT_OWNER.get(id(c), (None, -1))[1]},
+    notes="component object: baseGlyph (assignable), transformation; `owner` / `idx` are specification-only: the glyph whose component list holds the "
+    "object and its position there (they exist for a font in which no component object is shared between glyphs or positions)")
 
 
 def _factory_call(ex, st, self, args, kwargs, node):
@@ -160,6 +194,28 @@ class _Frozen:
         return self
 
 
+def _pxc(c):
+    from pyvc.rt import Proxy
+
+    return Proxy(c, CLASSES["SwComponent"])
+
+
+class _FrozenComps:
+    """run-time snapshot: component object -> value, for all components of the font's glyphs, taken when the view is read"""
+
+    def __init__(self, font, f):
+        self.keep = [c for g in font for c in g.components]
+        self.snap = {id(c): f(c) for c in self.keep}
+
+    def __getitem__(self, o):
+        from pyvc.rt import canon
+
+        return self.snap[id(canon(o))]
+
+    def __deepcopy__(self, memo):
+        return self
+
+
 cls(
     "SwFont",
     fields={"glyphs": Dict(STR, Ref("SwGlyph")), "kerning": KERNING, "groups": GROUPS},
@@ -172,6 +228,10 @@ cls(
         "h_contours": lambda ex, st, self: Val(Map(Ref("SwGlyph"), List(CONTOUR)), ex.field_array(st, "SwGlyph", "contours")),
         "h_width": lambda ex, st, self: Val(Map(Ref("SwGlyph"), REAL), ex.field_array(st, "SwGlyph", "width")),
         "h_anchors": lambda ex, st, self: Val(Map(Ref("SwGlyph"), List(ANCHOR)), ex.field_array(st, "SwGlyph", "anchors")),
+        "h_comps": lambda ex, st, self: Val(Map(Ref("SwGlyph"), List(Ref("SwComponent"))), ex.field_array(st, "SwGlyph", "components")),
+        "h_base": lambda ex, st, self: Val(Map(Ref("SwComponent"), STR), ex.field_array(st, "SwComponent", "baseGlyph")),
+        "h_xf": lambda ex, st, self: Val(Map(Ref("SwComponent"), XFORM), ex.field_array(st, "SwComponent", "transformation")),
+        "names": lambda ex, st, self: Val(List(STR), _f_glyphs(ex, st, self).ty.sort().keys(_f_glyphs(ex, st, self).term)),
         # every pair of names (hints quantify "for every key k: k in d => .." without iterating a dict in order)
         "all_pairs": lambda ex, st, self: Val(Set(NAMEPAIR), z3.K(NAMEPAIR.sort(), z3.BoolVal(True))),
     },
@@ -180,6 +240,10 @@ cls(
         "objs": lambda f: _IdMap({g.name: _px(g) for g in f}),
         "kerning": lambda f: dict(f.kerning),
         "groups": lambda f: {k: list(v) for k, v in f.groups.items()},
+        "h_comps": lambda f: _Frozen(f, lambda g: [_pxc(c) for c in g.components]),
+        "h_base": lambda f: _FrozenComps(f, lambda c: c.baseGlyph),
+        "h_xf": lambda f: _FrozenComps(f, lambda c: tuple(c.transformation)),
+        "names": lambda f: list(f.keys()),
         "h_contours": lambda f: _Frozen(f, _contours_view),
         "h_width": lambda f: _Frozen(f, lambda g: g.width),
         "h_anchors": lambda f: _Frozen(f, CLASSES["SwGlyph"].views["anchors"]),
@@ -213,6 +277,9 @@ contract(
         "name_old != name_new",  # generate_instance only swaps different names
         "all(font.objs[n].name == n for n in font.keyset)",  # every glyph of a layer carries the name it is stored under (so: different names, different objects)
         "all(allocated(font.objs[n]) for n in font.keyset)",  # the font's glyphs exist (the temporary glyph made here is none of them)
+        # no component object is shared between two glyphs or two positions (each knows its place) and all of them exist
+        "all(all(font.objs[n].components[j].owner is font.objs[n] and font.objs[n].components[j].idx == j and allocated(font.objs[n].components[j])"
+        " for j in range(len(font.objs[n].components))) for n in font.keyset)",
     ],
     raises={"InstantiatorError": f"not ({_BOTH})"},
     ensures={
@@ -225,6 +292,12 @@ contract(
         " and font.objs[n].anchors == old(font.h_anchors)[font.objs[n]]) for n in font.keyset)",
         # the glyph objects stay where they are, under their names (unicodes / lib / height are not written at all: not in `modifies`)
         "same-glyphs": "font.keyset == old(font.keyset) and all(font.objs[n] is old(font.objs)[n] and font.objs[n].name == n for n in font.keyset)",
+        # step 1 + 3: the component lists are exchanged with the outlines, and EVERY component of EVERY glyph has its base name conjugated
+        # (same transformation, same order): glyph n ends up with the components that glyph sigma(n) had, bases mapped
+        "components-conjugated": "all(len(font.objs[n].components) == len(old(font.h_comps)[font.objs[" + _SW.format("n") + "]])"
+        " and all(font.objs[n].components[j].baseGlyph == " + _SW.format("old(font.h_base)[old(font.h_comps)[font.objs[" + _SW.format("n") + "]][j]]")
+        + " and font.objs[n].components[j].transformation == old(font.h_xf)[old(font.h_comps)[font.objs[" + _SW.format("n") + "]][j]]"
+        " for j in range(len(font.objs[n].components))) for n in font.keyset)",
         # step 4: kerning conjugated, same values; no key lost, none invented
         "kerning-conjugated": f"all({_SP.format('k')} in font.kerning and font.kerning[{_SP.format('k')}] == old(font.kerning)[k] for k in old(font.kerning))",
         "kerning-nothing-invented": f"all({_SP.format('k')} in old(font.kerning) for k in font.kerning)",
@@ -232,13 +305,29 @@ contract(
         "groups-conjugated": "list(font.groups.keys()) == old(list(font.groups.keys())) and all(len(font.groups[g]) == len(old(font.groups)[g])"
         f" and all(font.groups[g][m] == {_SW.format('old(font.groups)[g][m]')} for m in range(len(font.groups[g]))) for g in font.groups)",
     },
-    canaries={"nothing-swapped": "font.objs[name_old].width == old(font.h_width)[font.objs[name_old]]", "kerning-kept": "all(k in font.kerning for k in old(font.kerning))"},
+    canaries={"bases-not-conjugated": "all(all(font.objs[n].components[j].baseGlyph == old(font.h_base)[old(font.h_comps)[font.objs[" + _SW.format("n") + "]][j]]"
+              " for j in range(len(font.objs[n].components))) for n in font.keyset)",
+              "component-lists-not-exchanged": "all(len(font.objs[n].components) == len(old(font.h_comps)[font.objs[n]]) for n in font.keyset)",
+              "nothing-swapped": "font.objs[name_old].width == old(font.h_width)[font.objs[name_old]]", "kerning-kept": "all(k in font.kerning for k in old(font.kerning))"},
     modifies=["SwGlyph.contours", "SwGlyph.width", "SwGlyph.anchors", "SwGlyph.components", "SwComponent.baseGlyph", "SwFont.kerning", "SwFont.groups"],
     locals={"kerning_new": KERNING, "group_members_new": List(STR)},
-    ghost_vars={"K0": (KERNING, "font.kerning"), "G0": (GROUPS, "font.groups"), "wi": (Dict(NAMEPAIR, INT), "{}")},
-    ghost={"kerning_new[first, second] = value": ["wi = {**wi, (first, second): i}"]},
+    ghost_vars={"K0": (KERNING, "font.kerning"), "G0": (GROUPS, "font.groups"), "wi": (Dict(NAMEPAIR, INT), "{}"),
+                # component bases / lists as they are when step 3 starts, and at entry
+                "B1": (Map(Ref("SwComponent"), STR), "font.h_base"), "C0": (Map(Ref("SwGlyph"), List(Ref("SwComponent"))), "font.h_comps"),
+                "B0": (Map(Ref("SwComponent"), STR), "font.h_base"), "X0": (Map(Ref("SwComponent"), XFORM), "font.h_xf")},
+    ghost={"kerning_new[first, second] = value": ["wi = {**wi, (first, second): i}"],
+           "glyph_new.anchors = [dict(a) for a in glyph_swap.anchors]": ["B1 = font.h_base"]},
     # stepping stones between the loop that builds the conjugated table and the two statements that install it
     hints={
+        # when step 3 starts: (a) still no component object is shared (the drawn ones are new and pairwise distinct) ...
+        "glyph_new.anchors = [dict(a) for a in glyph_swap.anchors]": [
+            'all(all(font.objs[n].components[j].owner is font.objs[n] and font.objs[n].components[j].idx == j for j in range(len(font.objs[n].components))) for n in font.keyset)',
+            # ... (b) glyph sigma-images hold copies: glyph n's list has the length, bases and transformations of the ENTRY list of glyph sigma(n)
+            "all(len(font.objs[n].components) == len(C0[font.objs[" + _SW.format("n") + "]])"
+            " and all(font.objs[n].components[j].baseGlyph == B0[C0[font.objs[" + _SW.format("n") + "]][j]]"
+            " and font.objs[n].components[j].transformation == X0[C0[font.objs[" + _SW.format("n") + "]][j]]"
+            " for j in range(len(font.objs[n].components))) for n in font.keyset)",
+        ],
         "group_members_new = []": ["group_name == GK[gi] and group_members == G0[group_name]"],
         "font.groups[group_name] = group_members_new": ["font.groups[GK[gi]] == group_members_new and len(group_members_new) == len(G0[GK[gi]])"],
         "font.kerning.clear()": [
@@ -260,6 +349,28 @@ contract(
                 "conjugated": f"all({_SP.format('KS[j]')} in kerning_new and kerning_new[{_SP.format('KS[j]')}] == K0[KS[j]] for j in range(i))",
                 # every key of the new table is the conjugate of an old key that was already processed (wi names it), and conjugating it again gives that old key back
                 "witness": f"all(k in wi and 0 <= wi[k] and wi[k] < i and {_SP.format('KS[wi[k]]')} == k and {_SP.format('k')} == KS[wi[k]] for k in kerning_new)",
+            },
+        ),
+        # step 3.  Glyphs before position gi of the key order are done (every base conjugated w.r.t. B1), the others untouched; component lists,
+        # transformations and the owner / idx bookkeeping are not written at all.
+        "for g in font": Loop(
+            index="si",
+            invariants={
+                "done": "all(all(font.objs[font.names[a]].components[j].baseGlyph == " + _SW.format("B1[font.objs[font.names[a]].components[j]]")
+                + " for j in range(len(font.objs[font.names[a]].components))) for a in range(si))",
+                "todo": "all(all(font.objs[font.names[a]].components[j].baseGlyph == B1[font.objs[font.names[a]].components[j]]"
+                " for j in range(len(font.objs[font.names[a]].components))) for a in range(si, len(font.names)))",
+            },
+        ),
+        "for c in g.components": Loop(
+            index="sj",
+            invariants={
+                "done": "all(all(font.objs[font.names[a]].components[j].baseGlyph == " + _SW.format("B1[font.objs[font.names[a]].components[j]]")
+                + " for j in range(len(font.objs[font.names[a]].components))) for a in range(si))",
+                "todo": "all(all(font.objs[font.names[a]].components[j].baseGlyph == B1[font.objs[font.names[a]].components[j]]"
+                " for j in range(len(font.objs[font.names[a]].components))) for a in range(si + 1, len(font.names)))",
+                "here-done": "all(g.components[j].baseGlyph == " + _SW.format("B1[g.components[j]]") + " for j in range(sj))",
+                "here-todo": "all(g.components[j].baseGlyph == B1[g.components[j]] for j in range(sj, len(g.components)))",
             },
         ),
         "for (group_name, group_members) in font.groups.items()": Loop(
@@ -313,6 +424,9 @@ def _swap_build(d):
             font = f2
         except Exception:  # noqa  (defcon not installed: ufoLib2 only)
             pass
+    _RT_OWNER.clear()
+    _RT_OWNER.update(_rt_owner(font))
+    _RT_OWNER["keep"] = font
     return {"font": font, "name_old": d["old"], "name_new": d["new"]}
 
 
